@@ -193,7 +193,12 @@ impl Mon {
         self.r.max("C04.max_rejected_health_usd", to_f64(&hv.v));
         if hv.certainly_pos() {
             let prop = if kind == Kind::EndFlashloan { "C11" } else { "C04" };
-            self.r.violate(prop, &format!("{}/{}/rejected-although-healthy", prop, kind.name()), format!("account {}: reference initial health {} (+-{}) assets {} liabs {}", ak, show(&hv.v), show(&hv.e), show(&h.assets.v), show(&h.liabs.v)));
+            let mut parts = vec![];
+            for p in &pos {
+                let one = refm::ref_health(std::slice::from_ref(p), Req::Initial, info.now);
+                parts.push(format!("[bank {} tag {} setup {:?} state {:?} a={} l={} err={:?} bad={} cap={}]", p.bank_key, p.bank.config.asset_tag, p.bank.config.oracle_setup, p.bank.config.operational_state, show(&one.assets.v), show(&one.liabs.v), one.must_error, one.bad_collateral_oracles, one.cap_active));
+            }
+            self.r.violate(prop, &format!("{}/{}/rejected-although-healthy", prop, kind.name()), format!("account {}: reference initial health {} (+-{}) assets {} liabs {} positions {}", ak, show(&hv.v), show(&hv.e), show(&h.assets.v), show(&h.liabs.v), parts.join(" ")));
         }
     }
 
